@@ -294,7 +294,7 @@ Lemma exec_seq a b (st st' : store) : exec a st = (st', CNormal) -> exec (SSeq a
 Proof. intros H. cbn [LoopIR.exec]. rewrite H. reflexivity. Qed.
 Lemma exec_seq_stop a b (st st' : store) c : exec a st = (st', c) -> c <> CNormal -> exec (SSeq a b) st = (st', c).
 Proof. intros H Hc. cbn [LoopIR.exec]. rewrite H. destruct c; try reflexivity. congruence. Qed.
-Ltac ev := cbn [LoopIR.exec eval get set nth mkst bind try asZ asArr asF ok err fst snd arith arithZ fop compare cmpZ eqne truthy eval_list].
+Ltac ev := cbn [LoopIR.exec eval get set nth mkst bind try asZ asArr asF ok err fst snd arith arithZ fop compare cmpF cmpZ eqne truthy eval_list].
 
 Lemma updF_app_zeros' (X : list F) M m v : length X = m -> (m < M)%nat ->
   updF (X ++ zeros (M - m)) m v = (X ++ [v]) ++ zeros (M - S m).
@@ -451,7 +451,7 @@ Add Field FFir5 : (fth (O:=OF)).
 Notation value := (@value F).
 Notation store := (@store F).
 Notation exec := (@exec F OF feq stop).
-Ltac ev := cbn [LoopIR.exec eval get set nth mkst bind try asZ asArr asF ok err fst snd arith arithZ fop compare cmpZ eqne truthy eval_list].
+Ltac ev := cbn [LoopIR.exec eval get set nth mkst bind try asZ asArr asF ok err fst snd arith arithZ fop compare cmpF cmpZ eqne truthy eval_list].
 
 Fixpoint glev_iter (c : bool) (T : list F) (allow : bool) (P0 : F) (m : nat) : option lev_state :=
   match m with
